@@ -5,6 +5,7 @@ from ..core import AnalysisError, call_name, dotted, is_const, src, walk_shallow
 from ..lib import (deep_sources, Rules, calls_in, method_calls, const_str, need, single, guards_of, is_none_test,
                    attr_stores, find_loops, mentions_attr)
 from ..xmltable import writer_facts, ReaderAnalysis
+from . import refcheck
 
 L = 'pero_ocr.core.layout'
 
@@ -16,6 +17,22 @@ ALLOW_WRITE_ONLY = {
 }
 OPTIONAL_FIELDS = {'transcription', 'transcription_confidence', 'heights', 'index', 'polygon', 'baseline',
                    'region_type'}
+
+
+PAGE_WHAT = {
+    'tl_init': 'a TextLine keeps every constructor argument in the field of the same name',
+    'rl_init': 'a region starts with its id, polygon, type, no lines and no transcription',
+    'pl_init': 'a page starts empty; loading a file fills it; a reading order, if present, is applied once after loading',
+    'to_page_xml': 'region element: id, optional type, rounded points, optional text',
+    'get_coords_form_page_xml': 'points attribute, or Point children of foreign files',
+    'get_region_from_page_xml': 'region id, type, polygon and text (empty element -> empty string)',
+    'get_reading_order': 'region id -> index from RegionRefIndexed',
+    'from_pagexml': 'page id / size, reading order, regions and lines in document order, heights (v2 or legacy), index, baseline, polygon, text and confidence',
+    'to_pagexml_string': 'root per PAGE version, page attributes, reading order (sorted first), regions and lines with all optional parts',
+    'sort_regions_by_reading_order': 'stable sort by the index of the region id, unlisted regions last',
+    'reading_order_to_page_xml': 'OrderedGroup with one RegionRefIndexed per entry',
+    'points_string_to_array': 'blank-separated "x,y" pairs -> integer array',
+}
 
 
 def base(f):
@@ -46,6 +63,7 @@ def run(repo, chk):
     chk.assumptions = ['lxml serialises and parses attribute/text values faithfully',
                        'dict lookup uses hash/eq: a str-keyed dict never matches a RegionLayout object']
     R = Rules(repo, chk)
+    refcheck.run_all(R, repo, chk, 'RECUR', 'page_ref.py', PAGE_WHAT)
     R.run('KEYDOM', keydom, repo, chk)
     R.run('GUARD', guard_sort, repo, chk)
     R.run('TABLE', table, repo, chk)
@@ -53,6 +71,7 @@ def run(repo, chk):
     R.run('OPT', opt, repo, chk)
     R.run('EXHAUST', exhaust, repo, chk)
     R.run('WRSET', wrset, repo, chk)
+    chk.expect('RECUR', 17)
     chk.expect('KEYDOM', 3)
     chk.expect('GUARD', 2)
     chk.expect('TABLE', 15)
